@@ -313,6 +313,8 @@ static VF_UNUSED void vf_M(struct vf_ctx *c, int leng)
 static VF_UNUSED int vf_less_n(struct vf_ctx *c, int mode, int arg, uint32_t k, int leng)
 {
 	int lo = c->tok_prefix, n;
+	if (lo > leng)
+		lo = leng;	/* (only after yymore() at the end of a source: outside the model's domain) */
 	if (mode == 0)
 		n = arg;
 	else if (mode == 1)
